@@ -254,7 +254,19 @@ impl CommitPipeline {
 	/// seq-counter rewind, oracle reset) against concurrent commits. Returns
 	/// `impl Drop` so callers don't bind to which internal lock backs it.
 	pub(crate) fn lock_writes(&self) -> impl Drop + '_ {
-		self.write_mutex.lock()
+		let guard = self.write_mutex.lock();
+		// Commits that left the critical section before we took the lock are still
+		// on their way (commit log written, apply and publication outstanding).
+		// Let them finish: a restore that went ahead would have such a commit land
+		// in the restored memtable afterwards and raise the visible sequence number
+		// above the rewound commit counter. Failed batches are published too, so
+		// the horizon always catches up with the counter.
+		while self.visible_seq_num.load(Ordering::Acquire) + 1
+			< self.log_seq_num.load(Ordering::Acquire)
+		{
+			std::thread::yield_now();
+		}
+		guard
 	}
 
 	/// Discard all oracle entries and set `kept_since = max_seq`.
